@@ -23,3 +23,21 @@ def limited(seconds):
                 signal.signal(signal.SIGALRM, old)
         return wrapper
     return deco
+
+
+def map_with_loss(pool, fn, items, lost, per_item=400.0, slack=240.0, procs=16):
+    """pool.map that cannot hang: a task whose worker died (hard crash inside a numerical library, os._exit, ...) never
+    returns from multiprocessing.Pool.map.  Every item is submitted on its own; results are awaited until a deadline that
+    allows every item its time limit; an item without a result by then is replaced by lost(item), a trace whose single
+    event no action of the trace specification accepts -- so TLC rejects it (exit 1), instead of the check waiting forever."""
+    import time
+
+    handles = [pool.apply_async(fn, (it,)) for it in items]
+    deadline = time.time() + slack + per_item * max(1.0, len(items) / float(procs)) * 0.25 + per_item
+    out = []
+    for it, h in zip(items, handles):
+        try:
+            out.append(h.get(timeout=max(1.0, deadline - time.time())))
+        except Exception as ex:           # multiprocessing.TimeoutError, or the worker's own exception
+            out.append(lost(it, type(ex).__name__))
+    return out
